@@ -223,6 +223,19 @@ namespace embedded_pairing::wkdibe {
         qualified.a1.copy(sk.a1);
     }
 
+    /*
+     * Sets diff to a representative in [0, 2^256) of (a - b) modulo the group
+     * order. Attribute IDs are arbitrary 256-bit integers, so a - b can be as
+     * small as -(2^256 - 1), which is more than one group order below zero.
+     */
+    static void subtract_mod_group_order(Scalar& diff, const Scalar& a, const Scalar& b) {
+        bool negative = diff.subtract(a, b);
+        while (negative) {
+            /* A carry out of the addition means we crossed zero. */
+            negative = !diff.add(diff, group_order);
+        }
+    }
+
     void adjust_nondelegable(SecretKey& sk, const SecretKey& parent, const AttributeList& from, const AttributeList& to) {
         G1 temp;
         Scalar diff;
@@ -250,14 +263,12 @@ namespace embedded_pairing::wkdibe {
             if (j != from.length || k != to.length) {
                 if (sub_from && add_to) {
                     if (!ID::equal(from.attrs[j].id, to.attrs[k].id)) {
-                        if (diff.subtract(to.attrs[k].id, from.attrs[j].id)) {
-                            diff.add(diff, group_order);
-                        }
+                        subtract_mod_group_order(diff, to.attrs[k].id, from.attrs[j].id);
                         temp.multiply(parent.b[i].hexp, diff);
                         sk.a0.add(sk.a0, temp);
                     }
                 } else if (sub_from) {
-                    diff.subtract(group_order, from.attrs[j].id);
+                    subtract_mod_group_order(diff, group_order, from.attrs[j].id);
                     temp.multiply(parent.b[i].hexp, diff);
                     sk.a0.add(sk.a0, temp);
                 } else if (add_to) {
@@ -297,16 +308,14 @@ namespace embedded_pairing::wkdibe {
             const Attribute& to_attr = to.attrs[j];
             if (from_attr.idx == to_attr.idx) {
                 if (!ID::equal(from_attr.id, to_attr.id)) {
-                    if (diff.subtract(to_attr.id, from_attr.id)) {
-                        diff.add(diff, group_order);
-                    }
+                    subtract_mod_group_order(diff, to_attr.id, from_attr.id);
                     temp.multiply(params.h[to_attr.idx], diff);
                     precomputed.prodexp.add(precomputed.prodexp, temp);
                 }
                 i++;
                 j++;
             } else if (from_attr.idx < to_attr.idx) {
-                diff.subtract(group_order, from_attr.id);
+                subtract_mod_group_order(diff, group_order, from_attr.id);
                 temp.multiply(params.h[from_attr.idx], diff);
                 precomputed.prodexp.add(precomputed.prodexp, temp);
                 i++;
@@ -318,7 +327,7 @@ namespace embedded_pairing::wkdibe {
         }
         while (i != from.length) {
             const Attribute& from_attr = from.attrs[i];
-            diff.subtract(group_order, from_attr.id);
+            subtract_mod_group_order(diff, group_order, from_attr.id);
             temp.multiply(params.h[from_attr.idx], diff);
             precomputed.prodexp.add(precomputed.prodexp, temp);
             i++;
